@@ -363,8 +363,8 @@ def run_impl(case):
     e = env(); ac = e['ac']; eq = e['eq']
     if case['kind'] == 'lgc':
         XQ.SI = [(k, F(a), F(b)) for k, a, b in case['si']]
-        fn = ac.loggammacs_modified_UNIFAC if case['modified'] else ac.loggammacs_UNIFAC
         with patched(True):
+            fn = ac.loggammacs_modified_UNIFAC if case['modified'] else ac.loggammacs_UNIFAC
             try:
                 r = fn(toX(np.array(case['qs'])), toX(np.array(case['rs'])), toX(np.array(case['x'])))
                 return {'values': fvec(r)}
